@@ -148,7 +148,9 @@ theorem createPair_spec {s s' : St} {c : Addr} {t1 t2 : Tok} {adder : Addr}
       s' = { s with pairMap := s.pairMap ++ [((t1, t2), s.nextAddr)],
                     pairs := upd s.pairs s.nextAddr (some (newPair t1 t2 fp.1 fp.2 adder)),
                     addrs := s.addrs ++ [s.nextAddr],
-                    nextAddr := s.nextAddr + 1 } := by
+                    nextAddr := s.nextAddr + 1,
+                    tmpOwners := tmpInsert s.tmpOwners s.nextAddr (c, s.block),
+                    noLp := if s.bareNext then s.noLp ++ [s.nextAddr] else s.noLp } := by
   simp only [createPair, Option.bind_eq_bind, Option.bind_eq_some_iff, req_eq_some,
     Option.pure_def, Option.some.injEq, Prod.mk.injEq] at h
   obtain ⟨_, h1, _, h2, _, h3, _, h4, _, h5, _, h6, fp, h7, _, h8, _, h9, rfl, rfl⟩ := h
